@@ -118,14 +118,17 @@ Send(e, c) ==
   /\ LimU /\ FaultU /\ RepU /\ DevU
   /\ UNCHANGED <<attached, endSt, delivered, rdOff, inflight, pc, rdgen, bridgeClosed, registered, ended>>
 
-\* SetTargetConnection: close(ready); Start() leaves its select and launches the two copiers
+\* SetTargetConnection: close(ready); Start() leaves its select and launches the two copiers; the s2t
+\* goroutine loads the source forwarder that is current at that moment (a replacement that slips in
+\* between close(ready) and that load is, for the copier, a replacement before the attach)
 Attach ==
   /\ ~attached /\ registered /\ ~bridgeClosed
   /\ attached' = TRUE
   /\ pc' = [d \in Dirs |-> "read"]
+  /\ rdgen' = IF replaced THEN 2 ELSE 1
   /\ H([a |-> "attach"])
   /\ LimU /\ FaultU /\ RepU /\ DevU
-  /\ UNCHANGED <<endSt, avail, sent, delivered, rdOff, inflight, rdgen, bridgeClosed, registered, nsend, ended>>
+  /\ UNCHANGED <<endSt, avail, sent, delivered, rdOff, inflight, bridgeClosed, registered, nsend, ended>>
 
 \* an end closes its connection (what it wrote before stays readable, then EOF; writes to it fail)
 CloseEnd(e) ==
@@ -374,7 +377,9 @@ CanStep(d) == \/ pc[d] = "read" /\ (avail[RdChan(d)] # <<>> \/ glitch[Src(d)])
               \/ pc[d] = "write"
               \/ pc[d] = "limit" /\ (lim = "large" \/ tokens > 0 \/ inflight[d] > Burst(lim))
               \/ pc[d] = "limit" /\ tokens < Burst(lim)                          \* Refill enabled
-Stuck(d) == /\ ended = "none" /\ attached /\ ~bridgeClosed /\ ~OnOld(d) /\ pc[d] # "done" /\ endSt[Src(d)] # "failed"
+\* bytes left on the replaced connection when the copier moved on (or never read it): never delivered
+Stranded == rdgen = 2 /\ avail["s1"] # <<>>
+Stuck(d) == /\ ended = "none" /\ ~(d = "s2t" /\ Stranded) /\ attached /\ ~bridgeClosed /\ ~OnOld(d) /\ pc[d] # "done" /\ endSt[Src(d)] # "failed"
             /\ delivered[d] + lost[d] < sent[d] /\ ~CanStep(d)
 Independent      == \A d \in Dirs : ~Stuck(d)
 IndependentKnown == devLimErr \/ Independent     \* limiter error + replacement: the rest of the old connection is never read
